@@ -6,22 +6,24 @@ import vlib
 
 PID = "C06"
 MANIFEST = {
-    "technique": "Lean 4 theorems (induction over the argument list with the counter state as invariant) on a hand model of x86func.cpp, "
-                 "a64func.cpp and func.cpp + ABI rules written independently (Spec/ABI.lean) + C++/Lean correspondence; the argument "
-                 "shuffle is judged by a Lean abstract-machine monitor run on the real code's instruction lists (no theorem yet)",
+    "technique": "Lean 4 theorems (induction over the argument list with the counter state as invariant; decide over all integer type pairs "
+                 "for the move selection) on hand models of x86func.cpp, a64func.cpp, func.cpp, funcargscontext.cpp, emithelper.cpp and the "
+                 "x86/a64 emit helpers + ABI rules and an abstract machine written independently + C++/Lean correspondence",
     "text": "PARTIAL. Proved in Lean for every signature (any length, varargs or not) over the convention's type domain: the model of "
-            "FuncDetail::init yields exactly the locations (register / stack offset / by-reference), stack-area size, callee-pop flag, red / "
-            "shadow zone, stack alignment and preserved sets that the ABI rules prescribe for SysV x86-64, Win64, AAPCS64 and Apple arm64 "
-            "(detail_matches_abi_sysv/_win64/_a64, ret_matches_abi). The 32-bit x86 conventions have rules and a monitor but no theorem; "
-            "light-call and x64 vectorcall have model + correspondence only. The model is tied to the real code by running CallConv::init and "
-            "FuncDetail::init on the same generated lines and diffing; the Lean ABI monitor judges every answer of the real code. "
-            "emit_args_assignment is NOT modelled/proved: every instruction list the real code emits into a Builder for the generated "
-            "assignments (all permutations of <=4/5 registers, cycles, widening self-moves and swaps, stack sources/destinations) is executed "
-            "on the abstract machine of Spec/Machine.lean whose post-condition is the property (monitor = testing, not proof).",
-    "note": "Model follows the code with fixes/C06-1..6 applied (on the unrepaired tree the check reports exactly those deviations). Trusted: "
-            "Lean kernel; Spec/ABI.lean and Spec/Machine.lean as the meaning of the ABIs / of mov, movsx, movzx, xchg, loads and stores; the "
-            "harness/driver diff. Open findings C06-K1..K5 (known_findings.json). Not claimed: x87 long double, mmx on 32-bit, call-site "
-            "marshalling inside the register allocator (C05), shuffle_correct as a theorem.",
+            "FuncDetail::init yields exactly the locations, stack-area size, callee-pop flag, red / shadow zone, stack alignment and preserved "
+            "sets that the ABI rules prescribe for SysV x86-64, Win64, AAPCS64 and Apple arm64 (detail_matches_abi_sysv/_win64/_a64, "
+            "ret_matches_abi); the 32-bit x86 conventions have rules and a monitor but no theorem; light-call and x64 vectorcall model + "
+            "correspondence only. Argument shuffle: Model/ArgShuffle.lean is an executable model of init_work_data, WorkData, the three phases "
+            "of emit_args_assignment and of emit_arg_move/emit_reg_move/emit_reg_swap (x86 and a64) that reproduces the real Builder output "
+            "instruction for instruction on every generated line. Proved: the x86 integer move selection extends as the types require for all "
+            "type pairs (x86_int_arg_move_extends), AArch64 loads likewise outside two excluded classes; the full-strength shuffle_correct is "
+            "stated, NOT proved, and shown false at the K3/K4/K5 witnesses (theorems by evaluation of the model). The schedule-level induction "
+            "is not done: every schedule the real code emits is instead judged by the abstract machine of Spec/Machine.lean (monitor = testing).",
+    "note": "Model follows the code with fixes C06-1..6 (in /repo) and fixes/C06-7 (float<->double conversions inverted; until applied the "
+            "check reports exactly that violation). Trusted: Lean kernel; Spec/ABI.lean and Spec/Machine.lean as the meaning of the ABIs / of "
+            "the mov family; the FuncFrame facts (dirty/preserved masks, SA register/offsets) are inputs taken from the real frame (C07); the "
+            "harness/driver diff. Open findings C06-K1..K5. Not claimed: x87 long double, mmx on 32-bit, call-site marshalling inside the "
+            "register allocator (C05), shuffle_correct as a theorem, byte overlap of stack slots (movaps stores 16 bytes for a float).",
 }
 MODS = ["AsmjitVerif.Props.C06"]
 
@@ -155,6 +157,8 @@ def fd_key(op, why):
         return "abi:sysv-mmx"
     if 44 in types:
         return "abi:float80"
+    if fam == "x86-32" and cc in (2, 4) and any(t in (40, 41) for t in types):
+        return "abi:x86-32-fastcall-int64"
     return "abi:%s:%s" % (fam, why.split()[1] if len(why.split()) > 1 else "?")
 
 
@@ -183,9 +187,10 @@ def run(res):
     rng = vlib.rng_for(res.seed, PID)
     res.assumptions += [
         "Spec/ABI.lean is our reading of the psABI / Microsoft / AAPCS64 / Apple documents (trusted as the meaning of 'the ABI prescribes')",
-        "the model follows the code with fixes/C06-1..6 applied; light-call, x64 vectorcall, Float80, x87/mmx returns: model + correspondence only",
-        "32-bit x86 conventions: rules + monitor, no theorem; emit_args_assignment: abstract-machine monitor on the real instruction lists only "
-        "(no model, no theorem); instruction semantics (mov/movsx/movzx/movsxd/xchg/ldr*/str*) = Spec/Machine.lean",
+        "the model follows the code with fixes C06-1..6 (applied in /repo) and fixes/C06-7; light-call, x64 vectorcall, Float80, x87/mmx returns: model + correspondence only",
+        "32-bit x86 conventions: rules + monitor, no theorem; emit_args_assignment: executable model tied by correspondence + abstract-machine "
+        "monitor on the real instruction lists; schedule-level theorem not proved; instruction semantics = Spec/Machine.lean; "
+        "FuncFrame facts are inputs of the shuffle model (taken from the real frame)",
         "call-site marshalling in x86rapass/a64rapass (on_before_invoke) is not modelled here (C05)"]
     broken = []
     ok, out = vlib.lean_stage(res, PID, MODS)
